@@ -259,6 +259,7 @@ int main (int argc, char *argv[])
 		  return 1;
 		}
 	      files.push_back(std::move(file));
+	      storage.note_image_file(optarg);
 	    }
 	  catch (std::exception& e)
 	    {
